@@ -23,6 +23,8 @@ structure Arg where
   val : Option Int := none
   /-- capacities in bytes of the pointer members of the object passed (`&p.Data` with member `h`) -/
   caps : List (String × Int) := []
+  /-- value of a boolean argument -/
+  flag : Option Bool := none
 deriving Repr, DecidableEq
 
 inductive Ev
@@ -166,5 +168,86 @@ def trialEnv (t : Nat) : Env :=
       else Int.ofNat (v % 5) - 1
     b := fun k => (h k / 7) % 2 == 0
     sz := fun s => Int.ofNat (8 * (1 + (mixHash (hash s) (hash t)).toNat / 1024 % 4)) }
+
+end Jedi.Go
+
+namespace Jedi.Go
+
+/-- every event of the list satisfies P -/
+def AllP (P : Ev → Prop) (l : List Ev) : Prop := ∀ e ∈ l, P e
+
+theorem allP_nil (P : Ev → Prop) : AllP P [] ↔ True := by simp [AllP]
+theorem allP_cons (P : Ev → Prop) (a : Ev) (l : List Ev) : AllP P (a :: l) ↔ P a ∧ AllP P l := by simp [AllP]
+theorem allP_append (P : Ev → Prop) (l₁ l₂ : List Ev) : AllP P (l₁ ++ l₂) ↔ AllP P l₁ ∧ AllP P l₂ := by
+  simp only [AllP, List.mem_append]
+  constructor
+  · intro h; exact ⟨fun e he => h e (Or.inl he), fun e he => h e (Or.inr he)⟩
+  · rintro ⟨h₁, h₂⟩ e (he | he); exact h₁ e he; exact h₂ e he
+theorem allP_ite (P : Ev → Prop) (c : Prop) [Decidable c] (l₁ l₂ : List Ev) :
+    AllP P (if c then l₁ else l₂) ↔ (c → AllP P l₁) ∧ (¬ c → AllP P l₂) := by
+  by_cases h : c <;> simp [h]
+theorem allP_flatMap_range (P : Ev → Prop) (n : Int) (f : Nat → List Ev) :
+    AllP P ((List.range n.toNat).flatMap f) ↔ ∀ i : Nat, 0 ≤ (i : Int) → (i : Int) < n → AllP P (f i) := by
+  simp only [AllP, List.mem_flatMap, List.mem_range]
+  constructor
+  · intro h i _ hi e he; exact h e ⟨i, by omega, he⟩
+  · rintro h e ⟨i, hi, he⟩; exact h i (by omega) (by omega) e he
+
+def arg0 : List Arg → Arg | x :: _ => x | _ => { text := "" }
+def arg1 : List Arg → Arg | _ :: x :: _ => x | _ => { text := "" }
+def arg2 : List Arg → Arg | _ :: _ :: x :: _ => x | _ => { text := "" }
+def arg3 : List Arg → Arg | _ :: _ :: _ :: x :: _ => x | _ => { text := "" }
+
+/-- The C side of the buffer contract: for a call of C function `fn`, the buffer arguments and the number of bytes the
+function reads or writes behind each, in terms of the environment.  Sources, all on the C side of this development:
+`…_marshal` writes and the fixed-size `…_unmarshal` reads exactly `…_get_marshalled_length` bytes (C15: marshalled
+length = the length function, for every object; C15c for LQ-IBE); the point encodings are 48/96/96/192/576 bytes = the
+exported size constants (C09/C19); the `from_hash` functions read one field element (`Fq::read_big_endian`: 48 bytes,
+`Fq2`: 96; C10), `zp_from_hash` reads 32 bytes; LQ-IBE `encrypt`/`decrypt` fill exactly the announced number of bytes
+of the symmetric-key buffer (C16); `…_set_length` inspects at most the announced number of bytes (C17). -/
+def bufNeeds (E : Env) (fn : String) (a : List Arg) : List (Arg × Int) :=
+  let len1 (lf : String) (c : Arg) : Int := E.i ("call", [lf, c.text])
+  let len2 (lf : String) (o c : Arg) : Int := E.i ("call", [lf, o.text, c.text])
+  let enc (c : Arg) (comp unc : String) : Int := if c.flag = some true then E.i ("cvar", [comp]) else E.i ("cvar", [unc])
+  if fn = "embedded_pairing_wkdibe_params_marshal" then [(arg0 a, len2 "embedded_pairing_wkdibe_params_get_marshalled_length" (arg1 a) (arg2 a))]
+  else if fn = "embedded_pairing_wkdibe_secretkey_marshal" then [(arg0 a, len2 "embedded_pairing_wkdibe_secretkey_get_marshalled_length" (arg1 a) (arg2 a))]
+  else if fn = "embedded_pairing_wkdibe_ciphertext_marshal" then [(arg0 a, len1 "embedded_pairing_wkdibe_ciphertext_get_marshalled_length" (arg2 a))]
+  else if fn = "embedded_pairing_wkdibe_signature_marshal" then [(arg0 a, len1 "embedded_pairing_wkdibe_signature_get_marshalled_length" (arg2 a))]
+  else if fn = "embedded_pairing_wkdibe_masterkey_marshal" then [(arg0 a, len1 "embedded_pairing_wkdibe_masterkey_get_marshalled_length" (arg2 a))]
+  else if fn = "embedded_pairing_wkdibe_ciphertext_unmarshal" then [(arg1 a, len1 "embedded_pairing_wkdibe_ciphertext_get_marshalled_length" (arg2 a))]
+  else if fn = "embedded_pairing_wkdibe_signature_unmarshal" then [(arg1 a, len1 "embedded_pairing_wkdibe_signature_get_marshalled_length" (arg2 a))]
+  else if fn = "embedded_pairing_wkdibe_masterkey_unmarshal" then [(arg1 a, len1 "embedded_pairing_wkdibe_masterkey_get_marshalled_length" (arg2 a))]
+  else if fn = "embedded_pairing_wkdibe_params_set_length" ∨ fn = "embedded_pairing_wkdibe_secretkey_set_length" then [(arg1 a, (arg2 a).val.getD 0)]
+  else if fn = "embedded_pairing_lqibe_params_marshal" then [(arg0 a, len1 "embedded_pairing_lqibe_params_get_marshalled_length" (arg2 a))]
+  else if fn = "embedded_pairing_lqibe_id_marshal" then [(arg0 a, len1 "embedded_pairing_lqibe_id_get_marshalled_length" (arg2 a))]
+  else if fn = "embedded_pairing_lqibe_masterkey_marshal" then [(arg0 a, len1 "embedded_pairing_lqibe_masterkey_get_marshalled_length" (arg2 a))]
+  else if fn = "embedded_pairing_lqibe_secretkey_marshal" then [(arg0 a, len1 "embedded_pairing_lqibe_secretkey_get_marshalled_length" (arg2 a))]
+  else if fn = "embedded_pairing_lqibe_ciphertext_marshal" then [(arg0 a, len1 "embedded_pairing_lqibe_ciphertext_get_marshalled_length" (arg2 a))]
+  else if fn = "embedded_pairing_lqibe_params_unmarshal" then [(arg1 a, len1 "embedded_pairing_lqibe_params_get_marshalled_length" (arg2 a))]
+  else if fn = "embedded_pairing_lqibe_id_unmarshal" then [(arg1 a, len1 "embedded_pairing_lqibe_id_get_marshalled_length" (arg2 a))]
+  else if fn = "embedded_pairing_lqibe_masterkey_unmarshal" then [(arg1 a, len1 "embedded_pairing_lqibe_masterkey_get_marshalled_length" (arg2 a))]
+  else if fn = "embedded_pairing_lqibe_secretkey_unmarshal" then [(arg1 a, len1 "embedded_pairing_lqibe_secretkey_get_marshalled_length" (arg2 a))]
+  else if fn = "embedded_pairing_lqibe_ciphertext_unmarshal" then [(arg1 a, len1 "embedded_pairing_lqibe_ciphertext_get_marshalled_length" (arg2 a))]
+  else if fn = "embedded_pairing_lqibe_encrypt" then [(arg1 a, (arg2 a).val.getD 0)]
+  else if fn = "embedded_pairing_lqibe_decrypt" then [(arg0 a, (arg1 a).val.getD 0)]
+  else if fn = "embedded_pairing_bls12_381_g1_marshal" then
+    [(arg0 a, enc (arg2 a) "embedded_pairing_bls12_381_g1_marshalled_compressed_size" "embedded_pairing_bls12_381_g1_marshalled_uncompressed_size")]
+  else if fn = "embedded_pairing_bls12_381_g1_unmarshal" then
+    [(arg1 a, enc (arg2 a) "embedded_pairing_bls12_381_g1_marshalled_compressed_size" "embedded_pairing_bls12_381_g1_marshalled_uncompressed_size")]
+  else if fn = "embedded_pairing_bls12_381_g2_marshal" then
+    [(arg0 a, enc (arg2 a) "embedded_pairing_bls12_381_g2_marshalled_compressed_size" "embedded_pairing_bls12_381_g2_marshalled_uncompressed_size")]
+  else if fn = "embedded_pairing_bls12_381_g2_unmarshal" then
+    [(arg1 a, enc (arg2 a) "embedded_pairing_bls12_381_g2_marshalled_compressed_size" "embedded_pairing_bls12_381_g2_marshalled_uncompressed_size")]
+  else if fn = "embedded_pairing_bls12_381_gt_marshal" then [(arg0 a, E.i ("cvar", ["embedded_pairing_bls12_381_gt_marshalled_size"]))]
+  else if fn = "embedded_pairing_bls12_381_gt_unmarshal" then [(arg1 a, E.i ("cvar", ["embedded_pairing_bls12_381_gt_marshalled_size"]))]
+  else if fn = "embedded_pairing_bls12_381_zp_from_hash" then [(arg1 a, E.sz "embedded_pairing_core_bigint_256_t")]
+  else if fn = "embedded_pairing_bls12_381_g1affine_from_hash" then [(arg1 a, E.sz "embedded_pairing_bls12_381_fq_t")]
+  else if fn = "embedded_pairing_bls12_381_g2affine_from_hash" then [(arg1 a, E.sz "embedded_pairing_bls12_381_fq2_t")]
+  else []
+
+/-- a C call is handed buffers that are long enough -/
+def bufOk (E : Env) : Ev → Prop
+  | .ccall fn a => ∀ p ∈ bufNeeds E fn a, ∃ av, p.1.avail = some av ∧ p.2 ≤ av
+  | _ => True
 
 end Jedi.Go
